@@ -187,4 +187,9 @@ partial def Expr.ofSExp : SExp → Option Expr
   | .list [.atom "group", p, e] => do pure (.group (← Pos.ofSExp p) (← Expr.ofSExp e))
   | _ => none
 
+/-- Is the node directly a `Member`?  (`o.f(args)` is the method-call form exactly then.) -/
+def Expr.isMember : Expr → Bool
+  | .member .. => true
+  | _ => false
+
 end Yae
